@@ -32,7 +32,10 @@ def qpCmd (f : List String) : Option String :=
     let unsat ← parseList "," parseNat unsat
     let tau : Rat := 1 / 1000000
     let cx := cost I x
-    let scaleTol : Rat := (1 + ratAbs cx) / 1000000000
+    -- relative tolerance, plus the floating-point resolution of the positions themselves weighed as the cost weighs them: a stiff variable
+    -- (weight 1e16) far from the origin (1e6) that sits one ulp beside its target already costs 1e-4
+    let res : Rat := ((I.vars.zip x).map (fun p => p.1.w * ((ratAbs p.2 + ratAbs p.1.d) / 1125899906842624) * ((ratAbs p.2 + ratAbs p.1.d) / 1125899906842624))).sum
+    let scaleTol : Rat := (1 + ratAbs cx) / 1000000000 + res / 1000
     -- every constraint not flagged unsatisfiable holds up to tau
     let Iunflagged : Inst := { I with cons := (I.cons.zipIdx.filter (fun p => !unsat.contains p.2)).map (·.1) }
     let feas := feasibleB Iunflagged tau x
